@@ -1,17 +1,21 @@
 ------------------------------ MODULE ToolTrace ------------------------------
 (* Direction B for C13: one execution = a RunAll event (the tool run once on N inputs: the list of its N outputs and
    its per-input exit contribution) followed by N RunOne events (the same tool run on each input alone).
-   Accepted iff every RunOne output equals the corresponding part of the RunAll output: RunAll = concat(RunOne). *)
+   Accepted iff every RunOne output equals the corresponding part of the RunAll output: RunAll = concat(RunOne), and
+   (Done) the exit status of the N-input run is the maximum of the N single statuses: one bad or fixed-up input makes the run
+   report 2, good inputs never do, wherever they stand. *)
 EXTENDS Integers, Sequences, Json, IOUtils, TLCExt, TLC
-VARIABLES l, all
+VARIABLES l, all, arc, mx
 Tr == ndJsonDeserialize(IOEnv.TRACE)
 Ev == Tr[l]
-TInit == l = 1 /\ all = <<>>
-TRunAll == /\ l <= Len(Tr) /\ Ev.e = "RunAll" /\ all' = Ev.outs /\ l' = l + 1
+TInit == l = 1 /\ all = <<>> /\ arc = 0 /\ mx = 0
+TRunAll == /\ l <= Len(Tr) /\ Ev.e = "RunAll" /\ all' = Ev.outs /\ arc' = Ev.rc /\ mx' = 0 /\ l' = l + 1
 TRunOne == /\ l <= Len(Tr) /\ Ev.e = "RunOne"
            /\ Ev.i >= 1 /\ Ev.i <= Len(all) /\ all[Ev.i] = Ev.out
-           /\ l' = l + 1 /\ UNCHANGED all
-TNext == TRunAll \/ TRunOne
-TSpec == TInit /\ [][TNext]_<<l, all>>
+           /\ mx' = (IF Ev.rc > mx THEN Ev.rc ELSE mx)
+           /\ l' = l + 1 /\ UNCHANGED <<all, arc>>
+TDone == /\ l <= Len(Tr) /\ Ev.e = "Done" /\ arc = mx /\ l' = l + 1 /\ UNCHANGED <<all, arc, mx>>
+TNext == TRunAll \/ TRunOne \/ TDone
+TSpec == TInit /\ [][TNext]_<<l, all, arc, mx>>
 Accepted == TLCGet("stats").diameter - 1 = Len(Tr)
 =============================================================================
